@@ -172,6 +172,7 @@ struct simfd {
 	int half_closed_by_daemon; /* shutdown(SHUT_WR) by the daemon */
 	int werr_errno;       /* hard write error ... */
 	long werr_after;      /* ... once this many further writev calls happened (-1: none) */
+	int werr_once;        /* the error is transient: it is reported once, the next call is served normally */
 	int blocked;          /* last write could not be taken completely */
 	int linger_on, linger_secs; /* SO_LINGER as the daemon set it (accepted sockets inherit the listener's) */
 	unsigned long nwritev, neagain;
@@ -777,6 +778,10 @@ ssize_t __wrap_writev(int fd, const struct iovec *iov, int iovcnt)
 		if (taps_on) ds_printf(&wlog, "%s[%d,%zu,-%d]", wlog.len ? "," : "", fd, total, f->werr_errno);
 		if (f->werr_errno == EPIPE) broken_pipe(fd);
 		errno = f->werr_errno;
+		if (f->werr_once) {
+			f->werr_once = 0;
+			f->werr_after = -1;
+		}
 		return -1;
 	}
 	if (f->werr_after > 0) f->werr_after--;
@@ -1703,6 +1708,7 @@ static int handle_command(char *line)
 		if (en > 0) {
 			f->werr_errno = (int)en;
 			f->werr_after = after;
+			f->werr_once = arg_long(line, "once=", 0) != 0;
 		}
 		ds_put(&out, "{\"ok\":1}");
 		reply();
